@@ -269,10 +269,10 @@ D(g, X, p, c, env) ==
   IN
   CASE o = "just" -> just(g[2])
     [] o \in {"cfgjust", "cfgjustr"} -> just(DCtxToks(c))
-    [] o = "any" -> one(TRUE, VT(t), {"any"})
+    [] o \in {"any", "anyr"} -> one(TRUE, VT(t), {"any"})
     [] o = "oneof" -> one(t \in SeqToSet(g[2]), VT(t), {"t:" \o x : x \in SeqToSet(g[2])})
     [] o = "noneof" -> one(t \notin SeqToSet(g[2]), VT(t), {"else"})
-    [] o = "sel" -> one(t \in SeqToSet(g[2]), VM("sel", VT(t)), {"else"})
+    [] o \in {"sel", "selr"} -> one(t \in SeqToSet(g[2]), VM("sel", VT(t)), {"else"})
     [] o = "end" -> IF t = "" THEN R(TRUE, p, VU, <<>>, {}) ELSE Fail({EvTok(X, p, {"eoi"})})
     [] o \in {"empty", "probe"} -> R(TRUE, p, VU, <<>>, {})
     [] o = "cust" ->
